@@ -166,11 +166,11 @@ func loadWorkbookT(data []byte) (*xlsx.File, []*wbMsg, []*wbType, error) {
 }
 
 // selectRows disables a seeded random dependency-closed set of enabled rows.
-func selectRows(rng *rand.Rand, msgs []*wbMsg, p float64) (disabled int) {
+func selectRows(rng *rand.Rand, msgs []*wbMsg, p float64, only func(*wbRow) bool) (disabled int) {
 	for _, m := range msgs {
 		// sub-field rows first: disabling one removes its dependencies
 		for _, r := range m.Rows {
-			if r.On == 0 {
+			if r.On == 0 || only != nil {
 				continue
 			}
 			changed := false
@@ -192,7 +192,7 @@ func selectRows(rng *rand.Rand, msgs []*wbMsg, p float64) (disabled int) {
 		}
 		want := map[*wbRow]bool{}
 		for _, r := range m.Rows {
-			want[r] = r.On == 1 && rng.Float64() < p
+			want[r] = r.On == 1 && rng.Float64() < p && (only == nil || only(r))
 		}
 		// to a fixpoint, so that the order of the rows does not matter
 		for pass := 0; pass < 4; pass++ {
@@ -384,15 +384,26 @@ func runC19(c *Ctx) {
 	workbooks := []string{"16.20", "20.14", "20.27", "20.43", "21.40"}
 	per := c.pick(4, 24)
 	type job struct {
-		wb  string
-		k   int
-		dir string
+		wb     string
+		k      int
+		dir    string
+		byType string // disable every row of this field type (as far as nothing enabled depends on it)
 	}
 	var jobs []job
 	for _, wb := range workbooks {
 		for k := 0; k < per; k++ {
-			jobs = append(jobs, job{wb, k, filepath.Join(scratch, fmt.Sprintf("run-%s-%d", wb, k))})
+			jobs = append(jobs, job{wb, k, filepath.Join(scratch, fmt.Sprintf("run-%s-%d", wb, k)), ""})
 		}
+	}
+	// profiles without any field of one type: what the generated code imports
+	// and declares must follow the fields that are left
+	byTypes := []string{"date_time", "local_date_time", "string", "byte", "float32", "sint32", "uint8z", "bool"}
+	for i, t := range byTypes {
+		if !c.thorough() && i%4 != int(c.Seed)%4 && t != "date_time" {
+			continue
+		}
+		wb := workbooks[(i+len(workbooks)-1)%len(workbooks)]
+		jobs = append(jobs, job{wb, 2 + 2*i, filepath.Join(scratch, fmt.Sprintf("run-%s-type-%s", wb, t)), t})
 	}
 	// stock output of every workbook, to regenerate over
 	stock := map[string]string{}
@@ -421,8 +432,10 @@ func runC19(c *Ctx) {
 				c.die("workbook %s: %v", j.wb, err)
 			}
 			ndis := 0
-			if j.k > 0 { // k = 0: the stock selection
-				ndis = selectRows(rng, msgs, []float64{0.9, 0.3, 0.7}[j.k%3])
+			if j.byType != "" {
+				ndis = selectRows(rng, msgs, 1, func(r *wbRow) bool { return cellStr(r.row, 3) == j.byType })
+			} else if j.k > 0 { // k = 0: the stock selection
+				ndis = selectRows(rng, msgs, []float64{0.9, 0.3, 0.7}[j.k%3], nil)
 			}
 			os.MkdirAll(j.dir, 0o755)
 			var buf bytes.Buffer
